@@ -207,7 +207,7 @@ func (r *run) callerLoop(c *callerState, ready chan struct{}) {
 			} else if e, ok := errCause(err).(*mtproto.ErrResponseCode); ok {
 				err = e
 			}
-			r.sc.Done(c.name, showResult(v, err))
+			r.sc.Done(c.name, showResult(sp.token, v, err))
 			continue
 		}
 		if sp.hinted {
@@ -226,7 +226,7 @@ func (r *run) callerLoop(c *callerState, ready chan struct{}) {
 		} else {
 			v, err = r.cl.MakeRequest(req)
 		}
-		r.sc.Done(c.name, showResult(v, err))
+		r.sc.Done(c.name, showResult(sp.token, v, err))
 	}
 }
 
@@ -237,7 +237,7 @@ func (r *run) callerLoop(c *callerState, ready chan struct{}) {
 //   vec*    length class p mod 7 -> 1, 2, 17, 0, 1500, 9000, 20000 elements (1500 ints = 6 kB: gzip bodies above the
 //           4096-byte buffer of popMessageAsBytes; 9000 ints = 36 kB and 20000 = 80 kB: above the 32 KiB window in
 //           which compress/flate hands out inflated data, a single Read never returns more); elements 7000+i (objects: 7000+i, 8000+i, 9000+i), the LAST one carries p
-//   err     rpc_error{400 + p mod 100, "VERIF_<p>"}
+//   err     rpc_error{400 + p mod 100, "VERIF_<p>"}, for p = 3 mod 4 a real-world error (refserver.ErrOf)
 // showResult prints kind:token only if EVERY element / field it got back equals what that token stands for.
 
 var vecLens = []int{1, 2, 17, 0, 1500, 9000, 20000}
@@ -308,9 +308,12 @@ func objValue(p int64, pong bool) tl.Object {
 func tok(p int64) string { return strconv.FormatInt(p, 10) }
 
 // showResult projects what MakeRequest returned.
-func showResult(v interface{}, err error) string {
+func showResult(own int64, v interface{}, err error) string {
 	if err != nil {
 		if e, ok := err.(*mtproto.ErrResponseCode); ok {
+			if refserver.IsErrOf(own, e.Code, e.Message) {
+				return "err:" + tok(own) // (a real-world error text does not name the request: the caller knows its own)
+			}
 			p, perr := strconv.ParseInt(strings.TrimPrefix(e.Message, "VERIF_"), 10, 64)
 			if perr != nil || !strings.HasPrefix(e.Message, "VERIF_") || e.Code != int(400+p%100) {
 				return fmt.Sprintf("err:garbled(code=%d,msg=%s)", e.Code, e.Message)
@@ -498,7 +501,7 @@ func resultBody(sp callSpec, flavour int) []byte {
 		}
 		return refserver.VectorObjects(v)
 	case "err":
-		return refserver.RpcError(int32(400+p%100), "VERIF_"+tok(p))
+		return refserver.RpcError(refserver.ErrOf(p))
 	}
 	trouble("unknown result kind %q", sp.kind)
 	return nil
